@@ -14,4 +14,5 @@ import GeoVerif.Ops.Paths
 import GeoVerif.Ops.Units
 import GeoVerif.Ops.MC
 import GeoVerif.Ops.Report
+import GeoVerif.Ops.Client
 /-! Everything the driver needs (import-free models + ops). -/
